@@ -78,8 +78,20 @@ def strat_route(draw, tier, holes=False):
                               max_size=8 if big else 6))
         nets.append({"source": src, "sinks": sinks,
                      "weight": draw(st.sampled_from([1, 0, 2.5]))})
+    # some of the faults are only recorded on the Machine object after it
+    # has been routed on once (a program that learns about a fault and
+    # routes again on its machine description)
+    late = None
+    if (m["dead_links"] or m["dead_chips"]) and draw(st.integers(0, 2)) == 0:
+        late = {"dead_links": draw(st.lists(st.sampled_from(
+                    [list(l) for l in m["dead_links"]]), unique_by=tuple,
+                    max_size=6)) if m["dead_links"] else [],
+                "dead_chips": [c for c in draw(st.lists(st.sampled_from(
+                    [list(c) for c in m["dead_chips"]]), unique_by=tuple,
+                    max_size=2)) if c not in list(chip_of.values())]
+                if m["dead_chips"] else []}
     return {"machine": m, "chip_of": chip_of, "alloc": alloc,
-            "endpoints": endpoints, "nets": nets,
+            "endpoints": endpoints, "nets": nets, "late_faults": late,
             "radius": draw(st.sampled_from([0, 1, 2, 3, 20, None])),
             # cores named by an identifier of the caller's own, passed as
             # the documented core_resource= option
@@ -97,7 +109,16 @@ def build(case, machine_case=None):
     from rig.place_and_route.constraints import RouteEndpointConstraint
     from rig.routing_table import Routes
     m = machine_case or case["machine"]
-    machine = pr.build_machine(m)
+    late = case.get("late_faults") if machine_case is None else None
+    if late and (late["dead_links"] or late["dead_chips"]):
+        early = dict(m)
+        early["dead_links"] = [l for l in m["dead_links"]
+                               if list(l) not in late["dead_links"]]
+        early["dead_chips"] = [c for c in m["dead_chips"]
+                               if list(c) not in late["dead_chips"]]
+        machine = pr.build_machine(early)
+    else:
+        machine = pr.build_machine(m)
     names = sorted(case["chip_of"], key=lambda n: int(n[1:]))
     vobj = pr.vertex_objects(names, case["vkind"])
     vr = dict((vobj[n], {Cores: 1}) for n in names)
@@ -122,6 +143,21 @@ def run_route(case, machine_case=None):
         kwargs["radius"] = case["radius"]
     if case.get("core_resource"):
         kwargs["core_resource"] = case["core_resource"]
+    late = case.get("late_faults") if machine_case is None else None
+    if late and (late["dead_links"] or late["dead_chips"]):
+        from rig.links import Links
+        random.seed(case["seed"] + 1)
+        try:
+            with sut("route (before the late faults are recorded)",
+                     (MachineHasDisconnectedSubregion,)):
+                route(vr, nets, machine, constraints, placements,
+                      allocations, **kwargs)
+        except MachineHasDisconnectedSubregion:
+            pass
+        for x, y, l in late["dead_links"]:
+            machine.dead_links.add((x, y, Links(l)))
+        for x, y in late["dead_chips"]:
+            machine.dead_chips.add((x, y))
     random.seed(case["seed"])
     with sut("route", (MachineHasDisconnectedSubregion,)):
         routes = route(vr, nets, machine, constraints, placements,
@@ -286,6 +322,29 @@ def strat_links(tier):
     return strat_route(tier, "links")
 
 
+@st.composite
+def strat_broadcast(draw, tier):
+    """Nets with tens of sinks on fault-free machines of 6-24 chips on a
+    side and small search radii: the partial tree outgrows the ring of
+    chips searched around each sink, so the spiral search is used."""
+    w, h = draw(st.integers(6, 24)), draw(st.integers(6, 24))
+    n = draw(st.integers(20, 80))
+    m = {"w": w, "h": h, "mesh": draw(st.sampled_from([False, False, True])),
+         "resources": {"Cores": 18}, "exceptions": [], "dead_chips": [],
+         "dead_links": []}
+    chips = draw(st.lists(st.tuples(st.integers(0, w - 1),
+                                    st.integers(0, h - 1)),
+                          min_size=n, max_size=n))
+    names = ["v%d" % i for i in range(n)]
+    return {"machine": m,
+            "chip_of": dict((v, list(c)) for v, c in zip(names, chips)),
+            "alloc": {}, "endpoints": {},
+            "nets": [{"source": names[0], "sinks": names[1:], "weight": 1}],
+            "radius": draw(st.sampled_from([1, 1, 2, 2, 3, 5])),
+            "core_resource": None, "late_faults": None,
+            "seed": draw(st.integers(0, 1000)), "vkind": "str"}
+
+
 CLAUSES = [
     Clause("trees", check_route, strategy=strat_route,
            rule="machines weighted to 1xN / 2xN shapes, torus and mesh, dead "
@@ -309,4 +368,11 @@ CLAUSES = [
                 "tree; same non-triviality rule",
            examples={"quick": 2500, "thorough": 40000},
            shards={"quick": 8, "thorough": 16}),
+    Clause("broadcast", check_route, strategy=strat_broadcast,
+           rule="one net of 20-80 sinks on a fault-free torus or mesh of "
+                "6-24 chips on a side with search radius 1-5 (the partial "
+                "tree exceeds three times the searched ring, so the spiral "
+                "search picks the attachment points); every case counts",
+           examples={"quick": 150, "thorough": 3000},
+           shards={"quick": 4, "thorough": 16}),
 ]
